@@ -205,7 +205,10 @@ func c08(r *core.Run) {
 	takeEval, _ := c08findEval(p, "PeriodLimit") // the function that evaluates the period script
 	reserve, _ := c08findEval(p, "TokenLimiter") // the function that evaluates the token script (reserveN)
 	newTok := p.Func(c08pkg, "", "NewTokenLimiter")
-	isAliveAddr0 := func(v ssa.Value) bool { return core.FieldAddrName(v) == "TokenLimiter.redisAlive" }
+	// the limiter's fallback state, anchored by field name wherever it is laid out
+	// (in TokenLimiter itself or in a struct of the package nested in it)
+	lim := newC08lim(p, "TokenLimiter")
+	isAliveAddr0 := lim.isAddr("redisAlive")
 	storesAlive := func(f *ssa.Function, val int64) []ssa.Instruction {
 		return core.Instrs(f, func(in ssa.Instruction) bool {
 			c := core.AsCall(in)
@@ -230,20 +233,28 @@ func c08(r *core.Run) {
 	}
 
 	// ---------------- D1: Go side of the period limiter ----------------
-	r.Check("D1/K6/period-code-mapping", "TakeCtx maps the script's replies 0→OverQuota, 1→Allowed, 2→HitQuota (under err == nil and a successful int64 assertion of the reply); every other path returns Unknown with a non-nil error", func(o *core.O) {
+	r.Check("D1/K6/period-code-mapping", "TakeCtx maps the script's replies 0→OverQuota, 1→Allowed, 2→HitQuota (under err == nil and a successful int64 assertion of the reply); every other path returns Unknown with a non-nil error (decided by evaluating TakeCtx from the reply on: each of the replies 0, 1, 2, replies outside that set, a failed assertion, a failed evaluation)", func(o *core.O) {
 		if !o.Need(take != nil, "PeriodLimit.TakeCtx") {
 			return
 		}
 		f := take
 		r.Fn(core.FuncName(f))
 		isEval := core.CallTo("(*" + c12redisPkg + ".Redis).EvalCtx")
-		isCode := func(v ssa.Value) bool {
-			e, ok := core.Strip(v).(*ssa.Extract)
-			if !ok || e.Index != 0 {
-				return false
-			}
-			ta, ok := e.Tuple.(*ssa.TypeAssert)
+		evals := core.Calls(f, isEval)
+		if !o.Need(len(evals) == 1, "one EvalCtx call in TakeCtx") {
+			return
+		}
+		// the reply: comma-ok assertions of result 0 of the evaluation
+		asserts := map[*ssa.TypeAssert]bool{}
+		for _, in := range core.Instrs(f, func(in ssa.Instruction) bool {
+			ta, ok := in.(*ssa.TypeAssert)
 			return ok && ta.CommaOk && core.IsResult(ta.X, 0, isEval)
+		}) {
+			asserts[in.(*ssa.TypeAssert)] = true
+		}
+		if len(asserts) == 0 {
+			o.Fail(p.Pos(f.Pos()), "TakeCtx does not read the script's reply through a checked (comma-ok) assertion")
+			return
 		}
 		// public codes by constant value
 		pub := map[string]int64{}
@@ -254,53 +265,77 @@ func c08(r *core.Run) {
 			}
 			pub[n], _ = constant.Int64Val(c.Value.Value)
 		}
-		want := map[int64]int64{0: pub["OverQuota"], 1: pub["Allowed"], 2: pub["HitQuota"]}
-		retIs := func(code int64, nilErr bool) func(ssa.Instruction) bool {
-			return func(in ssa.Instruction) bool {
-				ret, ok := in.(*ssa.Return)
-				if !ok || len(ret.Results) != 2 {
-					return false
-				}
-				c, isC := core.ConstInt(core.Result(ret, 0))
-				return isC && c == code && core.IsNil(core.Result(ret, 1)) == nilErr
-			}
+		// a scenario pins the error of the evaluation, the success of the assertion and the reply
+		type scenario struct {
+			what    string
+			errNil  bool
+			ok      int // 1 asserted, 0 assertion failed, -1 not pinned
+			reply   int64
+			public  int64
+			success bool
 		}
-		var atoms []core.Atom
-		for reply, public := range want {
-			atom := core.Cmp(token.EQL, isCode, core.IsConstInt(reply))
-			atoms = append(atoms, atom)
-			h, _ := core.EdgesOf(f, atom)
-			o.Site(len(h))
-			if len(h) == 0 {
-				o.Fail(p.Pos(f.Pos()), "TakeCtx has no case for script reply %d", reply)
+		scen := []scenario{
+			{"the script replies 0", true, 1, 0, pub["OverQuota"], true},
+			{"the script replies 1", true, 1, 1, pub["Allowed"], true},
+			{"the script replies 2", true, 1, 2, pub["HitQuota"], true},
+			{"the reply is not an int64", true, 0, 0, pub["Unknown"], false},
+			{"the evaluation fails", false, -1, 0, pub["Unknown"], false},
+		}
+		for _, c := range []int64{-1, 3, 4, 255, 256, 1 << 32, -1 << 63, 1<<63 - 1} {
+			scen = append(scen, scenario{fmt.Sprintf("the script replies %d", c), true, 1, c, pub["Unknown"], false})
+		}
+		for _, sc := range scen {
+			sc := sc
+			it := c08explore(f, func(v ssa.Value) (any, bool) {
+				e, ok := v.(*ssa.Extract)
+				if !ok {
+					return nil, false
+				}
+				if c, i := core.ResultOf(e); c != nil && isEval(c) && i == 1 {
+					if sc.errNil {
+						return c08nilV{}, true
+					}
+					return c08nonNilV{}, true
+				}
+				if ta, isTA := e.Tuple.(*ssa.TypeAssert); isTA && asserts[ta] && sc.ok >= 0 {
+					if e.Index == 1 {
+						return constant.MakeBool(sc.ok == 1), true
+					}
+					return constant.MakeInt64(sc.reply), true // the zero value when the assertion failed
+				}
+				return nil, false
+			})
+			if it.failed != "" {
+				o.Unres("TakeCtx when %s: %s", sc.what, it.failed)
 				continue
 			}
-			if w := core.ReachableFromEdges(h, func(in ssa.Instruction) bool {
-				_, ok := in.(*ssa.Return)
-				return ok && !retIs(public, true)(in)
-			}, nil); w != nil {
-				o.Fail(p.InstrPos(w), "script reply %d is not reported as public code %d with a nil error", reply, public)
+			o.Site(len(it.rets))
+			for _, w := range it.panics {
+				o.Fail(p.InstrPos(w), "when %s TakeCtx panics instead of answering", sc.what)
 			}
-			if w := core.Requires(f, retIs(public, true), atom); w != nil {
-				o.Fail(p.InstrPos(w), "public code %d is returned without the script having answered %d", public, reply)
+			if len(it.rets) == 0 && len(it.panics) == 0 {
+				o.Fail(p.Pos(f.Pos()), "when %s TakeCtx has no way to return", sc.what)
 			}
-		}
-		// success only after err == nil
-		for _, ret := range core.Returns(f) {
-			if core.IsNil(core.Result(ret, 1)) {
-				if w := core.Requires(f, core.Is(ret), core.Not(core.ErrNil(1, isEval))); w == nil {
-					// unreachable unless err != nil: wrong way round
-					o.Fail(p.InstrPos(ret), "a nil error is returned only when EvalCtx failed")
+			for _, rt := range it.rets {
+				if len(rt.vals) != 2 {
+					continue
 				}
-				if w := core.Requires(f, core.Is(ret), core.ErrNil(1, isEval)); w != nil {
-					o.Fail(p.InstrPos(ret), "a nil error is returned although EvalCtx may have failed")
+				code, isC := rt.vals[0].(constant.Value)
+				_, errIsNil := rt.vals[1].(c08nilV)
+				var got int64 = -1
+				if isC && code.Kind() == constant.Int {
+					got, _ = constant.Int64Val(code)
 				}
-				c, isC := core.ConstInt(core.Result(ret, 0))
-				if !isC || (c != pub["Allowed"] && c != pub["HitQuota"] && c != pub["OverQuota"]) {
-					o.Fail(p.InstrPos(ret), "a nil error is returned with a code that is none of Allowed/HitQuota/OverQuota")
+				switch {
+				case !isC && rt.vals[0] == nil:
+					o.Unres("%s: when %s the returned code is not decided by constants", p.InstrPos(rt.ret), sc.what)
+				case sc.success && (!isC || got != sc.public || !errIsNil):
+					o.Fail(p.InstrPos(rt.ret), "when %s the answer is not public code %d with a nil error", sc.what, sc.public)
+				case !sc.success && errIsNil:
+					o.Fail(p.InstrPos(rt.ret), "when %s a nil error is returned", sc.what)
+				case !sc.success && (!isC || got != sc.public):
+					o.Fail(p.InstrPos(rt.ret), "when %s an error is returned together with a code other than Unknown", sc.what)
 				}
-			} else if c, isC := core.ConstInt(core.Result(ret, 0)); !isC || c != pub["Unknown"] {
-				o.Fail(p.InstrPos(ret), "an error is returned together with a code other than Unknown")
 			}
 		}
 	})
@@ -570,7 +605,7 @@ func c08(r *core.Run) {
 	})
 
 	// ---------------- D4: fallback ----------------
-	isAliveAddr := func(v ssa.Value) bool { return core.FieldAddrName(v) == "TokenLimiter.redisAlive" }
+	isAliveAddr := lim.isAddr("redisAlive")
 	storeAlive := func(val int64) func(ssa.Instruction) bool {
 		return func(in ssa.Instruction) bool {
 			c := core.AsCall(in)
@@ -582,7 +617,7 @@ func c08(r *core.Run) {
 		}
 	}
 	r.Check("D4/K2/rescue-iff-redis-down", "reserveN: when atomic redisAlive == 0 the script is not evaluated and the answer is rescueLimiter.AllowN(now, n); after EvalCtx, false is answered only under err == redis.Nil or errors.Is(err, DeadlineExceeded/Canceled); every other failure (err != nil, or a reply that is not int64) first calls startMonitor and then answers rescueLimiter.AllowN(now, n); the script's verdict code == 1 is used only when err == nil", func(o *core.O) {
-		if !o.Need(reserve != nil, "TokenLimiter.reserveN") {
+		if !o.Need(reserve != nil, "TokenLimiter.reserveN") || !o.Need(lim.has("redisAlive", "rescueLimiter"), "the limiter's redisAlive / rescueLimiter fields") {
 			return
 		}
 		f := reserve
@@ -599,7 +634,8 @@ func c08(r *core.Run) {
 			if !ok || core.CalleeName(c) != "(*golang.org/x/time/rate.Limiter).AllowN" {
 				return false
 			}
-			return w.shape(c.Call.Args[0], nil) == "p0.TokenLimiter.rescueLimiter" && w.paramIndex(c.Call.Args[1]) == 2 && w.paramIndex(c.Call.Args[2]) == 3
+			root, isLim := lim.stateField(c.Call.Args[0], "rescueLimiter")
+			return isLim && w.paramIndex(root) == 0 && w.paramIndex(c.Call.Args[1]) == 2 && w.paramIndex(c.Call.Args[2]) == 3
 		}
 		retOf := func(pred func(ssa.Value) bool) func(ssa.Instruction) bool {
 			return func(in ssa.Instruction) bool {
@@ -708,7 +744,7 @@ func c08(r *core.Run) {
 		}
 	})
 	r.Check("D4/K3/monitor-once-and-ordered", "startMonitor: redisAlive is set to 0 and the waitForRedis goroutine is spawned only when monitorStarted was false, after monitorStarted = true, and the store of 0 precedes the spawn; monitorStarted is accessed only under rescueLock; redisAlive is written nowhere else to 0", func(o *core.O) {
-		if !o.Need(startMon != nil, "TokenLimiter.startMonitor") {
+		if !o.Need(startMon != nil, "TokenLimiter.startMonitor") || !o.Need(lim.has("redisAlive", "monitorStarted", "rescueLock"), "the limiter's redisAlive / monitorStarted / rescueLock fields") {
 			return
 		}
 		f := startMon
@@ -745,7 +781,7 @@ func c08(r *core.Run) {
 			o.Fail(p.Pos(f.Pos()), "startMonitor has %d monitor spawns and %d stores of 0 to redisAlive, expected one each", len(gos), len(zero))
 			return
 		}
-		started := core.BoolVal(core.FieldLoad("TokenLimiter.monitorStarted"))
+		started := core.BoolVal(core.FieldLoad(lim.fld("monitorStarted")))
 		for _, site := range append(gos, zero...) {
 			if wv := core.Requires(f, core.Is(site), core.Not(started)); wv != nil {
 				o.Fail(p.InstrPos(site), "reachable although monitorStarted is already true: a second monitor would be spawned / the flag reset under a running monitor")
@@ -753,7 +789,7 @@ func c08(r *core.Run) {
 		}
 		setTrue := func(in ssa.Instruction) bool {
 			st, ok := in.(*ssa.Store)
-			if !ok || core.FieldAddrName(st.Addr) != "TokenLimiter.monitorStarted" {
+			if !ok || core.FieldAddrName(st.Addr) != lim.fld("monitorStarted") {
 				return false
 			}
 			c, isC := st.Val.(*ssa.Const)
@@ -776,17 +812,25 @@ func c08(r *core.Run) {
 					o.Fail(p.InstrPos(in), "redisAlive is set to 0 outside startMonitor (%s): the limiter leaves Redis without a monitor that brings it back", core.FuncName(g))
 				}
 			}
-			for _, st := range core.StoresToField(g, "TokenLimiter.redisAlive") {
+			for _, st := range core.StoresToField(g, lim.fld("redisAlive")) {
 				if g != newTok {
 					o.Fail(p.InstrPos(st), "redisAlive is written non-atomically in %s", core.FuncName(g))
 				}
 			}
 		}
 		la := core.NewLockAnalysis(p, c08pkg)
-		acc := la.CheckGuards([]core.Guard{{Type: "TokenLimiter", Field: "monitorStarted", Lock: "rescueLock"}}, nil, nil)
-		core.ReportAccesses(o, p, acc)
+		if lim.ownerType("monitorStarted") != lim.ownerType("rescueLock") {
+			o.Unres("monitorStarted (%s) and rescueLock (%s) are not fields of one struct", lim.fld("monitorStarted"), lim.fld("rescueLock"))
+			return
+		}
+		acc := la.CheckGuards([]core.Guard{{Type: lim.ownerType("monitorStarted"), Field: "monitorStarted", Lock: "rescueLock"}}, nil, nil)
+		// an access inside a closure that is only ever called with the lock of the same object held
+		core.ReportAccesses(o, p, lim.lockedClosureAccesses(la, acc, "rescueLock"))
 	})
 	r.Check("D4/K2/alive-only-after-ping", "redisAlive returns to 1 only on an edge where tl.store.Ping() answered true, only in the monitor goroutine, which then ends and (deferred, under rescueLock) clears monitorStarted", func(o *core.O) {
+		if !o.Need(lim.has("redisAlive", "monitorStarted", "store"), "the limiter's redisAlive / monitorStarted / store fields") {
+			return
+		}
 		n := 0
 		for _, g := range p.PkgFuncs(c08pkg) {
 			for _, in := range core.Instrs(g, storeAlive(1)) {
@@ -795,29 +839,48 @@ func c08(r *core.Run) {
 				}
 				n++
 				r.Fn(core.FuncName(g))
-				wg := newC12fn(g)
+				// a call that executes Redis.Ping on the limiter's store: written out, or through
+				// a method value `x.store.Ping` bound before the monitor was started
+				isPing := func(x ssa.Instruction) bool {
+					c, ok := x.(*ssa.Call)
+					if !ok {
+						return false
+					}
+					callee, recv := lim.calleeOf(c)
+					if callee == nil || recv == nil || core.Short(callee.String()) != "(*"+c12redisPkg+".Redis).Ping" {
+						return false
+					}
+					_, isStore := lim.stateField(recv, "store")
+					return isStore
+				}
 				ping := core.BoolVal(func(v ssa.Value) bool {
 					c, ok := v.(*ssa.Call)
-					return ok && core.Short(core.CalleeName(c)) == "(*"+c12redisPkg+".Redis).Ping" && strings.HasSuffix(wg.shape(c.Call.Args[0], nil), ".TokenLimiter.store")
+					return ok && isPing(c)
 				})
 				if wv := core.Requires(g, core.Is(in), ping); wv != nil {
 					o.Fail(p.InstrPos(in), "%s sets redisAlive = 1 on a path where tl.store.Ping() did not just succeed", core.FuncName(g))
 				}
 				if wv, found := core.Reach(core.Q{From: []core.At{core.After(in)}, Target: func(x ssa.Instruction) bool {
 					c := core.AsCall(x)
-					return c != nil && strings.HasSuffix(core.CalleeName(c), ".Ping")
+					return c != nil && (strings.HasSuffix(core.CalleeName(c), ".Ping") || isPing(x))
 				}}); found {
 					o.Fail(p.InstrPos(wv), "the monitor keeps pinging after it declared Redis alive")
 				}
 				// deferred reset of monitorStarted
+				// (a deferred call that executes the store: the deferred closure itself, or a
+				// function it calls, e.g. a lock helper applied to the closure holding the store)
 				reset := false
+				clears := func(x ssa.Instruction) bool {
+					st, ok := x.(*ssa.Store)
+					if !ok || core.FieldAddrName(st.Addr) != lim.fld("monitorStarted") {
+						return false
+					}
+					c, isC := st.Val.(*ssa.Const)
+					return isC && c.Value != nil && c.Value.String() == "false"
+				}
 				for _, d := range core.Instrs(g, func(x ssa.Instruction) bool { _, ok := x.(*ssa.Defer); return ok }) {
-					if mc, ok := d.(*ssa.Defer).Call.Value.(*ssa.MakeClosure); ok {
-						for _, st := range core.StoresToField(mc.Fn.(*ssa.Function), "TokenLimiter.monitorStarted") {
-							if c, isC := st.Val.(*ssa.Const); isC && c.Value != nil && c.Value.String() == "false" {
-								reset = core.Dominates(d, in)
-							}
-						}
+					if core.Dominates(d, in) && lim.executes(d.(*ssa.Defer), clears, 0) {
+						reset = true
 					}
 				}
 				if !reset {
@@ -850,6 +913,9 @@ func c08(r *core.Run) {
 		if !o.Need(newTok != nil, "limit.NewTokenLimiter") {
 			return
 		}
+		if !o.Need(lim.has("rate", "burst", "store", "redisAlive", "rescueLimiter"), "the limiter's rate / burst / store / redisAlive / rescueLimiter fields") {
+			return
+		}
 		w := newC12fn(newTok)
 		want := map[string]string{
 			"rate":          "p0",
@@ -859,7 +925,7 @@ func c08(r *core.Run) {
 			"rescueLimiter": "golang.org/x/time/rate.NewLimiter(golang.org/x/time/rate.Every((1000000000/p0)),p1)",
 		}
 		for fld, exp := range want {
-			sts := core.StoresToField(newTok, "TokenLimiter."+fld)
+			sts := core.StoresToField(newTok, lim.fld(fld))
 			o.Site(len(sts))
 			if len(sts) != 1 {
 				o.Fail(p.Pos(newTok.Pos()), "NewTokenLimiter stores TokenLimiter.%s %d times", fld, len(sts))
